@@ -401,8 +401,10 @@ var fiVals = []int{0, 1, 2, 3, 7, 8, 9, 15, 16, 17, 24, 32, 33, 64, 255, 256, 32
 func hostileBuild(id, tier string, seed uint64) []any {
 	var cs []any
 	th := tier == "thorough"
+	// development aid (tools/mutsweep.py): restrict the run to the seeds of one family
+	onlyFam := os.Getenv("VERIF_HOSTILE_FAMILY")
 	for _, s := range hostileSeeds() {
-		if s.Big {
+		if s.Big || (onlyFam != "" && s.Family != onlyFam) {
 			continue
 		}
 		cs = append(cs, &hCase{Kind: "trunc", Seed: s.Name})
@@ -431,6 +433,9 @@ func hostileBuild(id, tier string, seed uint64) []any {
 		nHavoc, nSess, sessN = 60, 12, 4000
 	}
 	for si, s := range hostileSeeds() {
+		if onlyFam != "" && s.Family != onlyFam {
+			continue
+		}
 		for i := 0; i < nHavoc && !s.Big; i++ {
 			cs = append(cs, &hCase{Kind: "havoc", Seed: s.Name, N: 400, MSeed: gen.Mix(seed, gen.HashStr(id), uint64(si), uint64(i))})
 		}
